@@ -69,3 +69,29 @@ Theorem C18_every_change_validates : forall cfgv st now slot v,
   (mem (nth 6 cfgv' 0) iso_editions = true -> out = []) /\ (mem (nth 6 cfgv' 0) iso_editions = false -> out = [2; err_code EConfig]).
 Proof. exact set_config_validates. Qed.
 Print Assumptions C18_every_change_validates.
+
+(* ---- the code is the rule (regenerated each run): Client.__init__, set_config, set_configs, refresh_config, validate_config, clear_dtc
+   and communication_control executed on a SYMBOLIC edition (tools/symtrans.py, Gen/Fn_Edition.v) ---- *)
+From UDS Require Import Gen.Fn_Edition Model.Svc_Simple Proofs.Tie_simple_common Proofs.Tie_edition.
+
+Theorem C18_code_edition_at_construction : forall v, fn_edition_at_construction v = if is_edition v then ret 0 else fail EConfig.
+Proof. exact tie_edition_at_construction. Qed.
+Print Assumptions C18_code_edition_at_construction.
+Theorem C18_code_edition_at_construction_no_timeout : forall v, fn_edition_at_construction_no_timeout v = if is_edition v then ret 0 else fail EConfig.
+Proof. exact tie_edition_at_construction_no_timeout. Qed.
+Print Assumptions C18_code_edition_at_construction_no_timeout.
+Theorem C18_code_edition_set_config : forall v, fn_edition_set_config v = if is_edition v then ret 0 else fail EConfig.
+Proof. exact tie_edition_set_config. Qed.
+Print Assumptions C18_code_edition_set_config.
+(* set_config(edition v); set_config(request_timeout); set_config(edition w); the same request_timeout again; set_configs({p2_timeout}) *)
+Theorem C18_code_later_changes : forall v w, fn_edition_later_changes v w = ret [refused v; refused v; refused w; refused w; refused w].
+Proof. exact tie_edition_later_changes. Qed.
+Print Assumptions C18_code_later_changes.
+Theorem C18_code_clear_dtc : forall cfg g m, fn_edition_clear_dtc_request (std cfg) g m =
+  if is_edition (std cfg) then payload_of (cdi_make cfg g m) else fail EConfig.
+Proof. exact tie_edition_clear_dtc_request. Qed.
+Print Assumptions C18_code_clear_dtc.
+Theorem C18_code_communication_control : forall cfg ct node, fn_edition_communication_control_request (std cfg) ct node =
+  if is_edition (std cfg) then (cty <- ct_normalize (CtInt 1) ;; payload_of (cc_make cfg ct cty node)) else fail EConfig.
+Proof. exact tie_edition_communication_control_request. Qed.
+Print Assumptions C18_code_communication_control.
